@@ -5,7 +5,7 @@ package discovery
 // laws of the combine functions (which ARE proved) to "the statistics do not depend on the batch boundaries".
 //
 // Exhaustive over: all record streams of length <= 3 over {GET,POST} x {a.com/x, a.com/y} x status {200,500} x duration
-// {1,4}, and of length 4 with the duration fixed, with distinct timestamps in rotated (not log) order, and every way of cutting the
+// {1,4,-1}, and of length 4 with the duration fixed, with distinct timestamps in rotated (not log) order, and every way of cutting the
 // stream into two consecutive batches. For each:
 //   - the REAL GetUpdatedAggregations is run batch by batch and once over the whole stream; the endpoint statistics must
 //     agree (count, status-code counts, min/max time exactly; averages up to 1e-3);
@@ -84,7 +84,7 @@ func TestBoundedC15BatchBoundariesDoNotMatter(t *testing.T) {
 	methods := []string{"GET", "POST"}
 	urls := []string{"a.com/x", "a.com/y"}
 	statuses := []int{200, 500}
-	durations := []int{1, 4}
+	durations := []int{1, 4, -1} // -1: what HAProxy logs for a timer that never ran (still a record of the endpoint)
 	checked := 0
 	for n := 1; n <= 4; n++ {
 		choices := len(methods) * len(urls) * len(statuses) * len(durations)
@@ -106,8 +106,8 @@ func TestBoundedC15BatchBoundariesDoNotMatter(t *testing.T) {
 					Method:        methods[d%2],
 					URL:           urls[(d/2)%2],
 					StatusCode:    statuses[(d/4)%2],
-					Duration:      durations[(d/8)%2],
-					TotalDuration: durations[(d/8)%2] + 1,
+					Duration:      durations[(d/8)%len(durations)],
+					TotalDuration: durations[(d/8)%len(durations)] + 1,
 					Interceptor:   "py/1.0",
 					ConsumerTag:   "",
 				}
